@@ -1304,7 +1304,12 @@ func (s *vsrvSession) serveHTTP(w http.ResponseWriter, r *http.Request) {
 			w.WriteHeader(op.N)
 		case 'U': // server push of /pushed/<N>
 			if pu, ok := w.(http.Pusher); ok {
-				err := pu.Push("/pushed/"+strconv.Itoa(op.N), nil)
+				var opt *http.PushOptions
+				if op.N >= 100 {
+					// a promised request whose field block does not fit one frame
+					opt = &http.PushOptions{Header: http.Header{"X-Big": {strings.Repeat("X", 17000+op.N)}}} // "X": 8-bit Huffman code, sent as it is
+				}
+				err := pu.Push("/pushed/"+strconv.Itoa(op.N), opt)
 				s.hEvent(id, "push", 0, err)
 			}
 		}
